@@ -114,7 +114,12 @@ func genC17(t *testing.T, tr *vhlib.Trace, r *vhlib.Rand, n int) {
 			w.doForm(tr, uint64(4+r.Intn(30)))
 		case x < 35:
 			if len(w.cons) > 0 {
-				w.doRevise(tr, r.Intn(len(w.cons)))
+				if r.Chance(1, 2) {
+					w.doRevise(tr, r.Intn(len(w.cons)))
+				} else {
+					// a revision confirmed on chain and reorged out again
+					w.dropRevision(tr, r, len(w.cons)-1-r.Intn(min(2, len(w.cons))))
+				}
 			}
 		case x < 65:
 			w.doMine(tr, vhlib.Pick(r, 1, 1, 2, 3, 8, 20, 60), vhlib.Pick(r, "void", "void", "host"), r.Chance(5, 6))
@@ -182,6 +187,8 @@ func replay(t *testing.T, tr *vhlib.Trace, ops []vhlib.ParsedLine) {
 			w.doFormV1(tr, op.U64("dur"), op.Int("risk") == 1, op.Int("nopool") == 1)
 		case "append":
 			w.doAppend(tr, op.Int("c"))
+		case "chainrev":
+			w.doChainRev(tr, op.Int("c"))
 		case "twin":
 			w.doTwin(tr, op.Int("batch"), op.Int("catchup") == 1)
 		case "endcheck":
